@@ -142,13 +142,35 @@ def lake(args, timeout=3000):
     return r
 
 
+_PRIVATE_DRIVER = None
+
+
 def lake_build(targets):
-    """Build the given Lean modules / targets.  Returns (ok, text)."""
-    r = lake(["build"] + list(targets))
+    """Build the given Lean modules / targets.  Returns (ok, text).
+    While the lake lock is still held the freshly linked tinsdriver is copied to a path private to this process:
+    a concurrent check's `lake build` may re-link (unlink + create) the shared binary while we are running it."""
+    global _PRIVATE_DRIVER
+    with Lock("lake"):
+        r = _run(["lake", "build"] + list(targets), cwd=LEAN, timeout=3000)
+        shared = os.path.join(LEAN, ".lake", "build", "bin", "tinsdriver")
+        if r.returncode == 0 and os.path.exists(shared):
+            d = os.path.join(WORK, "bin")
+            os.makedirs(d, exist_ok=True)
+            for old in glob.glob(os.path.join(d, "tinsdriver.*")):
+                if time.time() - os.path.getmtime(old) > 6 * 3600:
+                    try:
+                        os.remove(old)
+                    except OSError:
+                        pass
+            priv = os.path.join(d, f"tinsdriver.{os.getpid()}")
+            shutil.copy2(shared, priv)
+            _PRIVATE_DRIVER = priv
     return r.returncode == 0, (r.stdout + r.stderr)
 
 
 def driver_path():
+    if _PRIVATE_DRIVER and os.path.exists(_PRIVATE_DRIVER):
+        return _PRIVATE_DRIVER
     return os.path.join(LEAN, ".lake", "build", "bin", "tinsdriver")
 
 
